@@ -1580,13 +1580,6 @@ func (p *Posix) CompleteMultipartUpload(ctx context.Context, input *s3.CompleteM
 
 	upiddir := filepath.Join(objdir, uploadID)
 
-	userMetaData := make(map[string]string)
-	objMeta := p.loadObjectMetaData(bucket, upiddir, nil, userMetaData)
-	err = p.storeObjectMetadata(f.File(), bucket, object, objMeta)
-	if err != nil {
-		return nil, err
-	}
-
 	objname := filepath.Join(bucket, object)
 	dir := filepath.Dir(objname)
 	if dir != "" {
@@ -1611,6 +1604,21 @@ func (p *Posix) CompleteMultipartUpload(ctx context.Context, input *s3.CompleteM
 		if err != nil {
 			return nil, fmt.Errorf("create object version: %w", err)
 		}
+	}
+
+	// the replaced object (if any) has been preserved: drop its attributes
+	// (metadata stores that write by object path keep them otherwise) and
+	// only now store the attributes of the new object
+	err = p.meta.DeleteAttributes(bucket, object)
+	if err != nil {
+		return nil, fmt.Errorf("delete replaced object attributes: %w", err)
+	}
+
+	userMetaData := make(map[string]string)
+	objMeta := p.loadObjectMetaData(bucket, upiddir, nil, userMetaData)
+	err = p.storeObjectMetadata(f.File(), bucket, object, objMeta)
+	if err != nil {
+		return nil, err
 	}
 
 	// if the versioning is enabled, generate a new versionID for the object
@@ -2945,6 +2953,13 @@ func (p *Posix) PutObject(ctx context.Context, po s3response.PutObjectInput) (s3
 		if err != nil {
 			return s3response.PutObjectOutput{}, fmt.Errorf("create object version: %w", err)
 		}
+	}
+
+	// drop the attributes of the replaced object (metadata stores that
+	// write by object path keep them otherwise)
+	err = p.meta.DeleteAttributes(*po.Bucket, *po.Key)
+	if err != nil {
+		return s3response.PutObjectOutput{}, fmt.Errorf("delete replaced object attributes: %w", err)
 	}
 
 	dir := filepath.Dir(name)
